@@ -6,7 +6,7 @@ import ast
 from ..model import ENFA, NFA, DFA
 from . import names
 from .common import site_of
-from .flow import (Oblig, calls, events, receivers, START, FINAL, STATES, SYMBOLS, DELTA_SYM, DELTA_EPS, SELF,
+from .flow import (own, Oblig, calls, events, receivers, START, FINAL, STATES, SYMBOLS, DELTA_SYM, DELTA_EPS, SELF,
                    result_locs, deps_of, arg_deps, check_escapes)
 
 EXPLANATION = (
@@ -89,7 +89,7 @@ def run(eng, rep, tier):
 
 def _ctor_deps(summ):
     out = set()
-    for ev in summ.events:
+    for ev in own(summ):
         if ev.kind == "new":
             for a in ev.args:
                 out |= deps_of(a)
